@@ -324,7 +324,7 @@ fn splices(a: &[u8], b: &[u8], step: usize, f: &mut dyn FnMut(&[u8])) {
 	}
 }
 
-fn small_sets() -> Vec<TileMap> {
+pub fn small_sets() -> Vec<TileMap> {
 	let mut a = TileMap::new();
 	a.insert((0, 0, 0), b"root".to_vec());
 	let mut b = TileMap::new();
@@ -355,7 +355,7 @@ fn pm_seeds() -> Vec<Vec<u8>> {
 }
 
 /// versatiles: mutations of the *decompressed* block index and tile index, re-compressed with the header lengths fixed up
-fn vt_inner(f: &mut dyn FnMut(&[u8])) {
+pub fn vt_inner(f: &mut dyn FnMut(&[u8])) {
 	let tiles = &small_sets()[1];
 	let base = codec::vt_encode(tiles, 0x10, 0, META, VtLayout::plain());
 	let be = |b: &[u8]| u64::from_be_bytes(b[..8].try_into().unwrap());
@@ -410,7 +410,7 @@ fn vt_inner(f: &mut dyn FnMut(&[u8])) {
 }
 
 /// PMTiles: mutations of the decompressed root directory, re-compressed; self-referential and deep leaf chains
-fn pm_inner(f: &mut dyn FnMut(&[u8])) {
+pub fn pm_inner(f: &mut dyn FnMut(&[u8])) {
 	let tiles = &small_sets()[1];
 	let base = codec::pm_encode(tiles, 2, 1, META, PmLayout::plain());
 	let le = |b: &[u8]| u64::from_le_bytes(b[..8].try_into().unwrap());
